@@ -21,7 +21,7 @@ ANCHORS = ["pyrex.internal_functions:LazyMutableClass.__setattr__", "pyrex.inter
            "pyrex.ray_tracing:BasicRayTracer.solutions", "pyrex.ray_tracing:UniformRayTracer.solutions"]
 RULE = ("one case = one history of 2-15 operations: for signals {read, shift, *=, /=, filter_frequencies, set_buffers("
         "leading/trailing/force), resample, with_times, +, copy, times=} on FunctionSignal / FFTThermalNoise / "
-        "FullThermalNoise / AVZ / ZHS Askaryan objects; for ray objects assignments of from_point/to_point/ice/dz on "
+        "FullThermalNoise / AVZ / ZHS / ARZ Askaryan objects; for ray objects assignments of from_point/to_point/ice/dz on "
         "Specialized/Basic/Uniform tracers and of theta0/to_point/dz/direct on their paths, each followed by reads; "
         "non-trivial = the history contains at least one read-mutate-read pattern that was decided; distinct = hash of the case")
 ASSUMPTIONS = ["for thermal-noise and Askaryan subclasses the defining function is taken from the object once, right after construction",
@@ -42,7 +42,7 @@ def gen_cases(tier, seed):
         elif r < 7:
             cls = ["fft-noise", "full-noise"][r - 5]
         elif r == 7:
-            cls = ["askaryan-avz", "askaryan-zhs"][(i // 10) % 2]
+            cls = ["askaryan-avz", "askaryan-zhs", "askaryan-arz"][(i // 10) % 3]
         elif r == 8:
             cls = "ray-tracer"
         else:
@@ -161,9 +161,9 @@ def make_signal(case, rng):
         s = sg.FullThermalNoise(times, (0.05 / dt, 0.35 / dt), rms_voltage=1.0)
     else:
         import pyrex
-        from pyrex.askaryan import AVZAskaryanSignal, ZHSAskaryanSignal
+        from pyrex.askaryan import AVZAskaryanSignal, ZHSAskaryanSignal, ARZAskaryanSignal
         p = gen.make_particle(energy=10 ** rng.uniform(6, 10), em_frac=float(rng.uniform(0, 1)), had_frac=float(rng.uniform(0, 1)))
-        model = AVZAskaryanSignal if cls == "askaryan-avz" else ZHSAskaryanSignal
+        model = {"askaryan-avz": AVZAskaryanSignal, "askaryan-zhs": ZHSAskaryanSignal, "askaryan-arz": ARZAskaryanSignal}[cls]
         times = np.arange(N) * dt + case["t_start"]
         s = model(times, p, viewing_angle=np.radians(rng.uniform(40, 70)), viewing_distance=float(rng.uniform(10, 2000)),
                   t0=float(times[0] + rng.uniform(0.2, 0.6) * N * dt))
@@ -282,9 +282,13 @@ def run_signal_case(case, v):
                 dev = float(np.max(np.abs(got - e))) / sc
                 if best is None or dev < best:
                     best = dev
-            ok1 = v.close("values == eager evaluation of the definition", best, 1e-9, history=log[-8:], read_mutate_read=pattern)
+            # ARZ places its pulse with int() truncations on an internal fine grid (see C07): a buffer grid that differs from
+            # the code's own by one ulp moves the pulse by a fine step, so its eager comparison is held to 5e-3 of the natural
+            # scale; staleness is still decided exactly by the fresh-object oracle below
+            etol = 5e-3 if case["cls"] == "askaryan-arz" else 1e-9
+            ok1 = v.close("values == eager evaluation of the definition", best, etol, history=log[-8:], read_mutate_read=pattern)
             ok2 = v.close("values == fresh object with the same defining attributes", float(np.max(np.abs(got - fv))) / sc, 1e-12,
-                          history=log[-8:], read_mutate_read=pattern) if not slots else True
+                          history=log[-8:], read_mutate_read=pattern) if (not slots or case["cls"] == "askaryan-arz") else True
             if pattern:
                 rmr += 1
             if not (ok1 and ok2):
